@@ -421,29 +421,28 @@ func C08_Words() {
 		}
 		e.endsAt("op", node, 2)
 		rt.Assert(node.(parsley.LiteralNode).Value() == "+=", "op/value")
-	case 4:
-		node, err := e.parse(terminal.Rune('a'))
+	case 4, 5:
+		// terminal.Rune over the code points at the edges of every UTF-8 length
+		// class (construction needs a concrete rune, so they are enumerated)
+		edges := []rune{'a', 0x7f, 0x80, 'é', 0x7ff, 0x800, '€', 0xfffd, 0xffff, 0x10000, 0x1F600, 0x10ffff}
+		ch := edges[rt.Choose("rune", len(edges))]
+		node, err := e.parse(terminal.Rune(ch))
 		if !e.common("rune", node, err) {
 			return
 		}
-		if !hasAt(e.d, e.c, "a") {
+		enc := string(ch)
+		if !hasAt(e.d, e.c, enc) {
+			if ch == 0xfffd {
+				return // U+FFFD also stands for an invalid byte: no claim
+			}
 			rt.Fail("rune/node-without-literal", "")
 			return
 		}
-		e.endsAt("rune", node, 1)
-		rt.Assert(node.(parsley.LiteralNode).Value() == 'a', "rune/value")
-	case 5:
-		node, err := e.parse(terminal.Rune('é'))
-		if !e.common("rune2", node, err) {
-			return
+		if len(enc) > 1 {
+			rt.Cover("multi-byte rune accepted")
 		}
-		if !hasAt(e.d, e.c, "é") {
-			rt.Fail("rune2/node-without-literal", "")
-			return
-		}
-		rt.Cover("multi-byte rune accepted")
-		e.endsAt("rune2", node, 2)
-		rt.Assert(node.(parsley.LiteralNode).Value() == 'é', "rune2/value")
+		e.endsAt("rune", node, len(enc))
+		rt.Assert(node.(parsley.LiteralNode).Value() == ch, "rune/value")
 	}
 }
 
